@@ -15,8 +15,9 @@ Definition pack_time_ok (prev : N) (p : epack) : option N :=
          && (match data with
              | [] => true
              | d :: _ => (* a pack that carries data: begin / end / position times agree with the messages *)
+                 (* (the closing tick may lie above the pack's end: other handlers of the channel may have raised the channel's time
+                    between the shift of the pack and its closing under the channel lock) *)
                  N.leb (ep_begin p) (e_ts d) && N.eqb (ep_end p) (e_ts (last data d)) && N.eqb (ep_endposts p) (ep_end p)
-                 && N.eqb (e_ts t) (ep_end p)
              end)
       then Some (e_ts t) else None
   end.
